@@ -1057,7 +1057,7 @@ int cms_signed_data_sign_to_der(
 	uint8_t content_header[256];
 	size_t content_header_len;
 	size_t certs_len = 0;
-	uint8_t signer_infos[512];
+	uint8_t signer_infos[4096]; // room for several SignerInfos with full issuer names
 	size_t signer_infos_len = 0;
 	SM3_CTX sm3_ctx;
 	const uint8_t *issuer;
@@ -1513,7 +1513,7 @@ int cms_enveloped_data_encrypt_to_der(
 	const uint8_t *shared_info2, size_t shared_info2_len,
 	uint8_t **out, size_t *outlen)
 {
-	uint8_t rcpt_infos[1024]; // 到底需要多大？				
+	uint8_t rcpt_infos[4096]; // room for several RecipientInfos with full issuer names
 	size_t rcpt_infos_len = 0;
 	uint8_t *p = rcpt_infos;
 	size_t len = 0;
@@ -1747,13 +1747,13 @@ int cms_signed_and_enveloped_data_encipher_to_der(
 	const uint8_t *shared_info2, size_t shared_info2_len,
 	uint8_t **out, size_t *outlen)
 {
-	uint8_t rcpt_infos[512];
+	uint8_t rcpt_infos[4096]; // room for several RecipientInfos with full issuer names
 	size_t rcpt_infos_len = 0;
 	int digest_algors[] = { OID_sm3 };
 	size_t digest_algors_cnt = sizeof(digest_algors)/sizeof(int);
 	uint8_t content_info_header[256];
 	size_t content_info_header_len = 0;
-	uint8_t signer_infos[512];
+	uint8_t signer_infos[4096]; // room for several SignerInfos with full issuer names
 	size_t signer_infos_len = 0;
 	SM3_CTX sm3_ctx;
 	const uint8_t *issuer;
